@@ -407,9 +407,10 @@ class RequestWideParams(object):
         #  maybe when we make group_policy optional.
         limit = req.GET.getall('limit')
         # JSONschema has already confirmed that limit has the form
-        # of an integer.
+        # of an integer. It was shown the last value when the parameter is
+        # repeated, so that is the one to use.
         if limit:
-            limit = int(limit[0])
+            limit = int(limit[-1])
 
         # TODO(efried): Make it an error to specify group_policy more than once
         #  - maybe when we make it optional.
